@@ -38,7 +38,7 @@ var (
 
 func run(pass *analysis.Pass) (any, error) {
 	for node, m := range code.Matches(pass, checkElaborateSleepQ) {
-		if body, ok := m.State["body"].([]ast.Stmt); ok && len(body) == 0 {
+		if body, ok := m.State["body"].([]ast.Stmt); ok && len(body) == 0 && code.PackageNameResolves(pass, node.Pos(), "time", "time") {
 			report.Report(pass, node, "should use time.Sleep instead of elaborate way of sleeping",
 				report.ShortRange(),
 				report.FilterGenerated(),
